@@ -42,7 +42,9 @@ def classify(prop, key, known):
 
 
 def run_shards(prop, tier, seed, shard_params, timeout_s, jobs, only_case=None, replay=False):
-    work = os.path.join(env.WORK, prop)
+    # one work directory per run: concurrent runs of the same property (e.g. a scratch QV_REPO run next to a
+    # normal one) must not delete each other's shard files
+    work = os.path.join(env.WORK, f"{prop}.{os.getpid()}")
     shutil.rmtree(work, ignore_errors=True)
     os.makedirs(work, exist_ok=True)
     cenv = env.child_env()
@@ -253,6 +255,8 @@ def main(argv=None):
             unlisted.append((key, rpath, v["count"]))
     for key, rpath, cnt in unlisted[:MAX_VIOLATION_LINES]:
         lines.append(f"VIOLATION property={prop} replay={os.path.relpath(rpath, env.VERIF)} key={key} count={cnt}")
+    if len(unlisted) > MAX_VIOLATION_LINES:
+        lines.append(f"... and {len(unlisted) - MAX_VIOLATION_LINES} more unlisted violation keys (all listed in the evidence file)")
 
     status = "held"
     if unlisted:
@@ -311,6 +315,8 @@ def main(argv=None):
     print(f"{prop} {tier} seed={seed}: status={status} evaluations={evaluations} decided={decided} grey={grey} unjudged={unjudged} "
           f"distinct_nontrivial={nontriv} known={len(known_hit)} unlisted={len(unlisted)} shards={len(shard_params)} wall={wall:.1f}s")
     if status == "violated":
+        if m["inconclusive"]:
+            print(f"(also {len(m['inconclusive'])} inconclusive reason(s), first: {m['inconclusive'][0][:300]})")
         return 1
     if status == "inconclusive":
         for r in m["inconclusive"][:10]:
